@@ -187,7 +187,7 @@ def run(ctx, proof):
                          "the warnings the same up to location. non-trivial = accepted grammar (exit 0) with at least 3 statements or a "
                          "within-word expression")
     rng = ctx.rng
-    n = 4000 if ctx.thorough() else 140
+    n = 1400 if ctx.thorough() else 140
     groups = []
     for p in sorted(glob.glob(os.path.join(core.REPO, "examples", "*.usage"))):
         with open(p) as f:
@@ -201,7 +201,7 @@ def run(ctx, proof):
     # chains of definitions (each refers to the next, plus references back into the middle of the chain) under several
     # orders of the definitions: whatever the code computes by sweeping over the definitions must not depend on
     # where a definition stands relative to its users
-    for i in range(300 if ctx.thorough() else 30):
+    for i in range(200 if ctx.thorough() else 30):
         d = rng.randint(3, 6)
         defs_ = [f"<N{j}> = --o{j} <N{j + 1}>;" for j in range(d)] + [f"<N{d}> = low | high;"]
         for e in range(rng.randint(1, 2)):
@@ -218,7 +218,7 @@ def run(ctx, proof):
     from . import c05
     frag = [t for t in gen.small_exprs(4) if c05.in_ladder_fragment(t)]
     reqs, owner = [], []
-    for i in range(600 if ctx.thorough() else 40):
+    for i in range(300 if ctx.thorough() else 40):
         vs = [rng.choice(frag) for _ in range(rng.choice([1, 1, 2]))]
         ds = [(f"N{j}", None, rng.choice(frag)) for j in range(rng.choice([0, 1, 2]))]
         wire = c05.spanned_grammar_wire(vs, ds)
